@@ -24,6 +24,9 @@ import (
 	"google.golang.org/grpc/status"
 	"google.golang.org/grpc/test/bufconn"
 
+	coreclient "github.com/projecteru2/core/client"
+	coretypes "github.com/projecteru2/core/types"
+
 	"github.com/projecteru2/core/client/interceptor"
 	pb "github.com/projecteru2/core/rpc/gen"
 
@@ -37,10 +40,13 @@ type c36Seg struct {
 
 type c36Case struct {
 	ID       string   `json:"id"`
-	Method   string   `json:"method"` // WorkloadStatusStream | WatchServiceStatus | ListPodNodes
+	Method   string   `json:"method"` // WorkloadStatusStream | WatchServiceStatus | ListPodNodes | GetPod (unary)
 	Max      int      `json:"max_retries"`
 	Script   []c36Seg `json:"script"`
 	CancelAt int      `json:"cancel_after_messages"` // -1: never; otherwise the caller cancels after that many messages
+	// ViaClientPkg: the connection is the one core's own client package dials (client.NewClient over TCP loopback:
+	// its dial options, service config and interceptors, retry budget Max = 0) instead of the harness's own dial
+	ViaClientPkg bool `json:"via_client_package,omitempty"`
 	// observed
 	Got      []string `json:"client_received,omitempty"`
 	Requests []string `json:"server_saw_requests,omitempty"`
@@ -127,6 +133,25 @@ func (s *c36Server) ListPodNodes(o *pb.ListNodesOptions, srv pb.CoreRPC_ListPodN
 	return s.serve(srv.Context(), "pod="+o.Podname, func(id string) error { return srv.Send(&pb.Node{Name: id}) })
 }
 
+// GetPod is the unary call: the k-th invocation answers with one pod when its script segment has messages, otherwise
+// with the segment's break.
+func (s *c36Server) GetPod(ctx context.Context, o *pb.GetPodOptions) (*pb.Pod, error) {
+	var first string
+	err := s.serve(ctx, "pod="+o.Name, func(id string) error {
+		if first == "" {
+			first = id
+		}
+		return nil
+	})
+	if first != "" {
+		return &pb.Pod{Name: first}, nil
+	}
+	if err == nil {
+		err = status.Error(codes.NotFound, "verif: scripted empty answer")
+	}
+	return nil, err
+}
+
 func TestC36(t *testing.T) {
 	env := vkit.Load("C36")
 	rec := vkit.NewRec(env)
@@ -153,6 +178,17 @@ func TestC36(t *testing.T) {
 		conns[m] = dial(m)
 		defer conns[m].Close()
 	}
+	// the same server on TCP loopback for the connection core's client package dials itself
+	tl, err := net.Listen("tcp", "127.0.0.1:0")
+	if err != nil {
+		t.Fatalf("listen: %v", err)
+	}
+	go func() { _ = srv.Serve(tl) }()
+	pc, err := coreclient.NewClient(context.Background(), tl.Addr().String(), coretypes.AuthConfig{})
+	if err != nil {
+		t.Fatalf("client.NewClient: %v", err)
+	}
+	defer pc.GetConn().Close()
 
 	run := func(c *c36Case) {
 		st := &c36State{c: c}
@@ -162,6 +198,10 @@ func TestC36(t *testing.T) {
 		ctx, cancel := context.WithCancel(metadata.AppendToOutgoingContext(context.Background(), "verif-case", c.ID))
 		defer cancel()
 		cli := pb.NewCoreRPCClient(conns[c.Max])
+		if c.ViaClientPkg {
+			cli = pc.GetRPCClient()
+			rec.Count("calls_through_the_client_package/"+c.Method, 1)
+		}
 		wantReq := ""
 		var recv func() (string, error)
 		var err error
@@ -184,6 +224,17 @@ func TestC36(t *testing.T) {
 					}
 					return strings.Join(m.Addresses, ","), nil
 				}
+			}
+		case "GetPod":
+			wantReq = "pod=p-" + c.ID
+			done := false
+			recv = func() (string, error) {
+				if done {
+					return "", io.EOF
+				}
+				done = true
+				p, e := cli.GetPod(ctx, &pb.GetPodOptions{Name: "p-" + c.ID})
+				return p.GetName(), e
 			}
 		default:
 			wantReq = "pod=p-" + c.ID
@@ -232,7 +283,7 @@ func TestC36(t *testing.T) {
 		}
 		rec.Count("streams/"+c.Method, 1)
 		rec.Count("reopen_attempts_seen", attempts-1)
-		allow := c.Method != "ListPodNodes"
+		allow := c.Method != "ListPodNodes" && c.Method != "GetPod"
 		// expected behaviour, computed from the script
 		expGot := []string{}
 		expAttempts := 0
@@ -240,7 +291,7 @@ func TestC36(t *testing.T) {
 		if !allow {
 			expAttempts = 1
 			if len(c.Script) > 0 {
-				for i := 0; i < c.Script[0].Msgs; i++ {
+				for i := 0; i < c.Script[0].Msgs && (c.Method != "GetPod" || i == 0); i++ {
 					expGot = append(expGot, fmt.Sprintf("%s/a0/m%d", c.ID, i))
 				}
 			}
@@ -386,6 +437,17 @@ func TestC36(t *testing.T) {
 				total += sg.Msgs
 			}
 			c.CancelAt = total
+		}
+		if i%4 == 3 { // through core's own client package (budget 0); a third of them unary
+			c.ViaClientPkg, c.Max = true, 0
+			if i%12 == 3 {
+				c.Method, c.CancelAt = "GetPod", -1
+				for k := range c.Script {
+					if c.Script[k].Break == "hold" {
+						c.Script[k].Break = "error"
+					}
+				}
+			}
 		}
 		cases = append(cases, c)
 	}
